@@ -460,6 +460,8 @@ class CallMixin:
         if not args:
             return ListV([])
         x = args[0]
+        if isinstance(x, DictV) and x.concrete():
+            return ListV([k for k, _ in x.pairs()])
         if isinstance(x, (ListV, TupleV, SetV)):
             return ListV(list(x.items))
         if isinstance(x, Term) and x.op in ("listcomp", "gencomp", "setcomp"):
@@ -478,6 +480,8 @@ class CallMixin:
         if not args:
             return SetV([])
         x = args[0]
+        if isinstance(x, DictV) and x.concrete():
+            return SetV([k for k, _ in x.pairs()])
         if isinstance(x, (ListV, TupleV, SetV)) and x.concrete():
             return SetV(list(x.items))
         if isinstance(x, Const) and isinstance(x.value, str):
